@@ -205,6 +205,9 @@ func (n *NumberNode) unmarshal(props JSONNode) error {
 		if base == 0 {
 			return fmt.Errorf("integer base cannot be zero")
 		}
+		if base < 2 || base > 36 {
+			return fmt.Errorf("integer base must be between 2 and 36, got %d", base)
+		}
 		n.Base = int(base)
 	}
 
